@@ -2,7 +2,7 @@
    the REAL container together with what each call returned. Every call is replayed through the model
    (kind 1 on disagreement) and through the sorted-map specification (kind 2 if the observed result is not
    what the reference sorted map returns). Keys and values are Go ints (Z), comparator = IntComparator. *)
-From VF Require Import Common.Base C01.Order C01.SortedMap C01.BinTree C01.RB C01.AVL C01.BTree C01.Containers.
+From VF Require Import Common.Base C01.Order C01.CmpSel C01.SortedMap C01.BinTree C01.RB C01.AVL C01.BTree C01.Containers.
 Local Open Scope Z_scope.
 
 Inductive kind := KRB | KAVL | KBT (m : nat) | KTMap | KTSet | KBidi.
@@ -30,23 +30,23 @@ Definition init_s (k : kind) : sstate :=
 (* treemap results that are not (key, value) pairs are reported like those of the other ordered maps *)
 Definition norm_x (r : xout Z Z) : gout := match r with XO o => RO o | XPair _ _ => RX r end.
 
-Definition model_step (st : mstate) (o : gop) : mstate * gout :=
+Definition model_step (zc : Z -> Z -> Z) (st : mstate) (o : gop) : mstate * gout :=
   match st, o with
-  | MRB s, GO o => let '(s', r) := RB.step Z Z zcmp 0 s o in (MRB s', RO r)
-  | MAVL s, GO o => let '(s', r) := AVL.step Z Z zcmp 0 s o in (MAVL s', RO r)
-  | MBT m s, GO o => let '(s', r) := BTree.step Z Z zcmp 0 m s o in (MBT m s', RO r)
-  | MTM s, GO o => let '(s', r) := treemap_step Z Z zcmp 0 0 s o in (MTM s', norm_x r)
-  | MTS s, GS o => let '(s', r) := treeset_step Z zcmp s o in (MTS s', RS r)
-  | MBD s, GB o => let '(s', r) := tbidi_step Z Z zcmp zcmp 0 0 s o in (MBD s', RB r)
+  | MRB s, GO o => let '(s', r) := RB.step Z Z zc 0 s o in (MRB s', RO r)
+  | MAVL s, GO o => let '(s', r) := AVL.step Z Z zc 0 s o in (MAVL s', RO r)
+  | MBT m s, GO o => let '(s', r) := BTree.step Z Z zc 0 m s o in (MBT m s', RO r)
+  | MTM s, GO o => let '(s', r) := treemap_step Z Z zc 0 0 s o in (MTM s', norm_x r)
+  | MTS s, GS o => let '(s', r) := treeset_step Z zc s o in (MTS s', RS r)
+  | MBD s, GB o => let '(s', r) := tbidi_step Z Z zc zc 0 0 s o in (MBD s', RB r)
   | _, _ => (st, RBad)
   end.
 
-Definition spec_step (st : sstate) (o : gop) : sstate * gout :=
+Definition spec_step (zc : Z -> Z -> Z) (st : sstate) (o : gop) : sstate * gout :=
   match st, o with
-  | SM m, GO o => let '(m', r) := sm_step Z Z zcmp 0 m o in (SM m', RO r)
-  | SX m, GO o => let '(m', r) := smx_step Z Z zcmp 0 0 m o in (SX m', norm_x r)
-  | SS m, GS o => let '(m', r) := sset_step Z zcmp m o in (SS m', RS r)
-  | SB b, GB o => let '(b', r) := bij_step Z Z zcmp zcmp 0 0 b o in (SB b', RB r)
+  | SM m, GO o => let '(m', r) := sm_step Z Z zc 0 m o in (SM m', RO r)
+  | SX m, GO o => let '(m', r) := smx_step Z Z zc 0 0 m o in (SX m', norm_x r)
+  | SS m, GS o => let '(m', r) := sset_step Z zc m o in (SS m', RS r)
+  | SB b, GB o => let '(b', r) := bij_step Z Z zc zc 0 0 b o in (SB b', RB r)
   | _, _ => (st, RBad)
   end.
 
@@ -174,26 +174,27 @@ Definition keys_len (r : gout) : option Z :=
 Definition len_is (r : gout) (n : Z) : bool :=
   match keys_len r with Some m => m =? n | None => false end.
 
-Record case := { c_kind : kind; c_steps : list cstep }.
+(* c_cmp: the comparator the real container was built with (same shape for keys and, in the bidi-map, values) *)
+Record case := { c_kind : kind; c_cmp : cmpsel; c_steps : list cstep }.
 
 Definition kind_of_m (m : mstate) : kind :=
   match m with MRB _ => KRB | MAVL _ => KAVL | MBT o _ => KBT o | MTM _ => KTMap | MTS _ => KTSet | MBD _ => KBidi end.
 
-Definition do_step (st : mstate * sstate) (c : cstep) : (mstate * sstate) * nat :=
+Definition do_step (zc : Z -> Z -> Z) (st : mstate * sstate) (c : cstep) : (mstate * sstate) * nat :=
   match c with
   | CKeysLen n =>
     let o := keys_op (kind_of_m (fst st)) in
-    (st, kind_of (len_is (snd (model_step (fst st) o)) n) (len_is (snd (spec_step (snd st) o)) n))
+    (st, kind_of (len_is (snd (model_step zc (fst st) o)) n) (len_is (snd (spec_step zc (snd st) o)) n))
   | _ =>
   let calls := expand c in
   let ops := map fst calls in
   let exp := map snd calls in
-  let '(ms', mouts) := run model_step (fst st) ops in
-  let '(ss', souts) := run spec_step (snd st) ops in
+  let '(ms', mouts) := run (model_step zc) (fst st) ops in
+  let '(ss', souts) := run (spec_step zc) (snd st) ops in
   ((ms', ss'), kind_of (list_eqb gout_eqb mouts exp) (list_eqb gout_eqb souts exp))
   end.
 
 Definition check_case (c : case) : nat :=
-  scan do_step (init_m (c_kind c), init_s (c_kind c)) (c_steps c) 0.
+  scan (do_step (zcmp_of (c_cmp c))) (init_m (c_kind c), init_s (c_kind c)) (c_steps c) 0.
 
 Definition mismatches (cs : list case) : list (nat * nat) := find_bad check_case cs.
